@@ -405,19 +405,21 @@ func (p *pkgInfo) importDir(name string) string {
 }
 
 type tr struct {
-	root     *rootT
-	p        *pkgInfo
-	t        target
-	params   map[string]string // free variables: name -> Go type
-	vars     map[string]string // local variables / Go params: Go name -> type ("ptr:Struct" for struct pointers)
-	alias    map[string]string // inlined callee's struct parameter / receiver -> the caller's variable it stands for
-	results  []string          // named results
-	resTypes []string
-	fresh    int
-	noTrace  bool          // effects.go: translating an inlined callee (no action trace of its own)
-	loop     *loopCtx      // loopbody.go: set for a LoopBody target
-	pending  []string      // effects.go: let-bindings to be placed in front of the statement being executed
-	markFn   *ast.FuncDecl // ext_chain.go: the function whose loops LoopMarks numbers
+	root      *rootT
+	p         *pkgInfo
+	t         target
+	params    map[string]string // free variables: name -> Go type
+	vars      map[string]string // local variables / Go params: Go name -> type ("ptr:Struct" for struct pointers)
+	alias     map[string]string // inlined callee's struct parameter / receiver -> the caller's variable it stands for
+	results   []string          // named results
+	resTypes  []string
+	fresh     int
+	noTrace   bool          // effects.go: translating an inlined callee (no action trace of its own)
+	loop      *loopCtx      // loopbody.go: set for a LoopBody target
+	pending   []string      // effects.go: let-bindings to be placed in front of the statement being executed
+	markFn    *ast.FuncDecl // ext_chain.go: the function whose loops LoopMarks numbers
+	autoMode  bool          // autoinline.go: inline() accepts a callee that is not listed in Inline
+	autoDepth int           // autoinline.go: nesting of automatically inlined callees
 
 	// ext_io.go
 	dfrs    [][]ast.Stmt                 // bodies of the deferred functions seen so far
@@ -905,6 +907,9 @@ func (x *tr) call(e *ast.CallExpr) val {
 	if v, ok := x.ioCall(fn, e); ok { // ext_io.go
 		return v
 	}
+	if v, ok := x.autoInline(e); ok { // autoinline.go: last resort, a same-package helper
+		return v
+	}
 	fail("call %s (add a hint)", src(x.p.fset, e))
 	return val{}
 }
@@ -997,10 +1002,14 @@ func (x *tr) inline(ce *ast.CallExpr) (val, bool) {
 			allowed = true
 		}
 	}
-	if !allowed || callee == nil || callee.Body == nil {
+	if !(allowed || x.autoMode) || callee == nil || callee.Body == nil {
 		return val{}, false
 	}
 	y := &tr{root: x.root, p: x.p, t: x.t, params: x.params, vars: map[string]string{}, alias: map[string]string{}, noTrace: true}
+	if !allowed {
+		y.autoDepth = x.autoDepth + 1 // autoinline.go
+	}
+	x.autoMode = false
 	pre := ""
 	bind := func(pname string, ptype ast.Expr, arg ast.Expr) {
 		pt := y.typeOfExpr(ptype)
@@ -1114,6 +1123,9 @@ func (x *tr) exec1(stmts []ast.Stmt, rest [][]ast.Stmt) string { // called throu
 			return x.retTuple(x.withTrace(x.loopRet(vs)))
 		}
 		if len(s.Results) != len(x.resTypes) {
+			if out, ok := x.autoInlineReturn(s); ok { // autoinline.go: return f(args) with f yielding every result
+				return out
+			}
 			fail("return arity")
 		}
 		var vs []string
@@ -1139,6 +1151,9 @@ func (x *tr) exec1(stmts []ast.Stmt, rest [][]ast.Stmt) string { // called throu
 		if ce, ok := s.X.(*ast.CallExpr); ok {
 			if _, ok := x.actCall(ce); ok { // recorded in the action trace (effects.go)
 				return x.exec(tail, rest)
+			}
+			if out, ok := x.autoInlineStmt(ce, tail, rest); ok { // autoinline.go: a same-package helper called for effect
+				return out
 			}
 		}
 		fail("statement %s", src(x.p.fset, s))
@@ -1166,6 +1181,9 @@ func (x *tr) exec1(stmts []ast.Stmt, rest [][]ast.Stmt) string { // called throu
 			return x.exec(tail, rest)
 		}
 		if len(s.Lhs) != 1 || len(s.Rhs) != 1 {
+			if out, ok := x.autoInlineAssign(s, tail, rest); ok { // autoinline.go: a, b := f(args) with f a same-package helper
+				return out
+			}
 			fail("multi-assignment %s", src(x.p.fset, s))
 		}
 		id, ok := s.Lhs[0].(*ast.Ident)
